@@ -24,13 +24,17 @@ def main():
     sh("git -C /repo worktree add --detach %s HEAD" % repo)
     env = "SELFIES_REPO=%s VERIF_EVIDENCE_DIR=/tmp/seedrun/ev_%d" % (repo, os.getpid())
     r = sh("git -C %s apply --check %s/patch.diff" % (repo, d))
+    threeway = ""
+    if r.returncode != 0:
+        r = sh("git -C %s apply --3way --check %s/patch.diff" % (repo, d))
+        threeway = "--3way "
     if r.returncode != 0:
         print("patch does not apply:\n" + r.stdout)
         sh("git -C /repo worktree remove --force %s" % repo)
         return 2
     results = {}
     try:
-        sh("git -C %s apply %s/patch.diff" % (repo, d))
+        print(sh("git -C %s apply %s%s/patch.diff" % (repo, threeway, d)).stdout.strip()[-300:])
         if os.path.exists(os.path.join(d, "demo.py")):
             r = sh("/venv/bin/python %s/demo.py %s" % (d, repo), timeout=600)
             results["demo_on_patched"] = r.returncode
